@@ -573,7 +573,14 @@ func ruleP16Order(p *Prog, r *Report) {
 			}
 			return ""
 		})
-		okGuard = m1 == "" && m2 == ""
+		// the comparison decides every call: no other condition gets to skip it
+		all := len(guardsOf(b)) == 0
+		for _, ret := range returnsOf(f) {
+			if !b.Dominates(ret.Block()) {
+				all = false
+			}
+		}
+		okGuard = m1 == "" && m2 == "" && all
 	}
 	r.check(okGuard, rule, "range-valid", p.pos(f.Pos()), "a range is rejected exactly when !end.IsAfterOrEqual(start)", "NewRangeWithFormat does not reject exactly the ranges whose end is before their start")
 	// stored in place
